@@ -1,9 +1,115 @@
 import CotengraVerif.Driver.Util
+import CotengraVerif.Model.Strip
 
 namespace Cotengra.Driver.C19
-open Lean Cotengra Cotengra.Driver
+open Lean Cotengra Cotengra.Driver Cotengra.Strip
 
-/-- ops of property C19 (name them "c19.<op>") -/
-def handlers : List (String × Handler) := []
+/-- exact rationals travel as strings "num/den" (or "num") -/
+def ratOf (j : Json) : Except String Rat := do
+  let s ← j.getStr?
+  match s.splitOn "/" with
+  | [n] =>
+    match n.toInt? with
+    | some v => pure (v : Rat)
+    | none => throw s!"bad rational {s}"
+  | [n, d] =>
+    match n.toInt?, d.toNat? with
+    | some v, some w => pure (mkRat v w)
+    | _, _ => throw s!"bad rational {s}"
+  | _ => throw s!"bad rational {s}"
+
+def jRat (r : Rat) : Json := jStr (if r.den == 1 then s!"{r.num}" else s!"{r.num}/{r.den}")
+def jRats (l : List Rat) : Json := jArr (l.map jRat)
+
+def tensorOf (j : Json) : Except String (Tensor Rat) := do
+  pure { inds := ← natList (← field j "inds"), data := ← (← arrOf (← field j "data")).mapM ratOf }
+
+def jTensor (t : Tensor Rat) : Json := jObj [("inds", jNats t.inds), ("data", jRats t.data)]
+
+def sizeFn (sizes : List (Nat × Nat)) : Ix → Nat := fun ix =>
+  match sizes.lookup ix with
+  | some d => d
+  | none => 1
+
+def stepOf (j : Json) : Except String Step := do
+  match ← arrOf j with
+  | [k, i, out] =>
+    if (← k.getStr?) == "pre" then pure (.pre (← natOf i) (← natList out)) else throw "step"
+  | [k, p, l, r, out] =>
+    if (← k.getStr?) == "pair" then pure (.pair (← natOf p) (← natOf l) (← natOf r) (← natList out))
+    else throw "step"
+  | _ => throw "step"
+
+def tempsOf (j : Json) : Except String (Temps Rat) := do
+  let ls ← (← arrOf j).mapM tensorOf
+  pure (ls.zipIdx.map fun (t, i) => (i, t))
+
+/-- op `c19.run`: the loop of `Contractor.__call__` on exact rationals, plain and stripped.
+    Returns the status of the stripped run (ok / zero / nan / keyerror), the root mantissa, the
+    factors divided out in order, the plain root, and the well-formedness of the program. -/
+def run : Handler := fun j => do
+  let size := sizeFn (← pairList (← field j "sizes"))
+  let T0 ← tempsOf (← field j "leaves")
+  let steps ← (← arrOf (← field j "steps")).mapM stepOf
+  let cz ← (fieldD j "check_zero" (jBool false)).getBool?
+  let wf := wfB steps (T0.map (·.1))
+  let plain : Json :=
+    match runPlain size steps T0 with
+    | some [(_, v)] => jTensor v
+    | _ => Json.null
+  let s0 : SState Rat := { temps := T0, factors := [] }
+  match runStrip size cz steps s0 with
+  | none => pure (jObj [("status", jStr "keyerror"), ("plain", plain), ("wf", jBool wf)])
+  | some S =>
+    if S.zero then pure (jObj [("status", jStr "zero"), ("plain", plain), ("wf", jBool wf)])
+    else if S.nan then pure (jObj [("status", jStr "nan"), ("plain", plain), ("wf", jBool wf),
+                                   ("factors", jRats S.factors)])
+    else
+      match S.temps with
+      | [(_, m)] =>
+        pure (jObj [("status", jStr "ok"), ("mantissa", jTensor m), ("factors", jRats S.factors),
+                    ("maxabs", jRat (maxAbs m.data)), ("plain", plain), ("wf", jBool wf)])
+      | _ => pure (jObj [("status", jStr "incomplete"), ("plain", plain), ("wf", jBool wf)])
+
+def strippedOf (j : Json) : Except String (Stripped Rat) := do
+  pure { m := ← tensorOf (← field j "m"), f := ← ratOf (← field j "f") }
+
+/-- op `c19.gather`: per chunk `functools.reduce(add_maybe_exponent_stripped, slices)`, then the
+    rescaling of the chunks to the largest factor; returns the rescaled chunks and the factor -/
+def gather : Handler := fun j => do
+  let chunks ← (← arrOf (← field j "chunks")).mapM fun c => do
+    let ss ← (← arrOf c).mapM strippedOf
+    match ss with
+    | [] => throw "empty chunk"
+    | s :: rest => pure (sumStripped s rest)
+  let (ts, F) := rescaleChunks chunks
+  pure (jObj [("chunks", jArr (ts.map jTensor)), ("f", jRat F),
+              ("sums", jArr (chunks.map fun c => jObj [("m", jTensor c.m), ("f", jRat c.f)]))])
+
+def sresOf (j : Json) : Except String (SRes Rat) := do
+  match ← (← field j "status").getStr? with
+  | "ok" => pure (.ok (← strippedOf j))
+  | "zero" => pure .zero
+  | "nan" => pure .nan
+  | s => throw s!"status {s}"
+
+/-- op `c19.gatherres`: slice results with their status (finite / `check_zero` exit / nan), reduced
+    per chunk with `addRes` (the repaired `add_maybe_exponent_stripped`; `"old": true` selects the
+    unrepaired one) and gathered with `gatherRes` -/
+def gatherres : Handler := fun j => do
+  let old ← (fieldD j "old" (jBool false)).getBool?
+  let add : SRes Rat → SRes Rat → SRes Rat := if old then addResOld else addRes
+  let chunks ← (← arrOf (← field j "chunks")).mapM fun c => do
+    let ss ← (← arrOf c).mapM sresOf
+    match ss with
+    | [] => throw "empty chunk"
+    | s :: rest => pure (sumRes add s rest)
+  match gatherRes chunks with
+  | .nan => pure (jObj [("status", jStr "nan")])
+  | .zero => pure (jObj [("status", jStr "zero")])
+  | .ok ts F => pure (jObj [("status", jStr "ok"), ("chunks", jArr (ts.map jTensor)), ("f", jRat F)])
+
+def handlers : List (String × Handler) :=
+  [("c19.run", run), ("c19.gather", gather), ("c19.gatherres", gatherres)]
 
 end Cotengra.Driver.C19
